@@ -61,12 +61,16 @@ struct Sink {
     interrupted_this_call: bool,
     failed_once: bool,
     log: Vec<(usize, String)>,
+    /// a writer that is called more often than this is being called forever
+    call_budget: usize,
 }
+
+const SINK_BUDGET_MSG: &str = "sink call budget exhausted";
 
 impl Sink {
     fn new(script: SinkScript) -> Sink {
         let seed = if let Accept::Random(s) = script.accept { s } else { 0 };
-        Sink { script, out: Vec::new(), calls: 0, rng: Rng::new(seed), interrupted_this_call: false, failed_once: false, log: Vec::new() }
+        Sink { script, out: Vec::new(), calls: 0, rng: Rng::new(seed), interrupted_this_call: false, failed_once: false, log: Vec::new(), call_budget: usize::MAX }
     }
     fn note(&mut self, asked: usize, what: String) {
         if self.log.len() < 64 {
@@ -77,6 +81,11 @@ impl Sink {
 
 impl Write for Sink {
     fn write(&mut self, buf: &[u8]) -> io::Result<usize> {
+        self.call_budget = self.call_budget.saturating_sub(1);
+        if self.call_budget == 0 {
+            // unwinds through the library into judge_write's guard
+            panic!("{SINK_BUDGET_MSG}");
+        }
         if let Some(j) = self.script.interrupt_every {
             if !self.interrupted_this_call && (self.calls + 1) % j == 0 {
                 self.interrupted_this_call = true;
@@ -156,6 +165,9 @@ impl Write for Sink {
 
 fn judge_write(what: &str, canonical: &[u8], script: &SinkScript, f: &dyn Fn(&mut Sink) -> Result<(), rpm::Error>) -> Option<(String, String, Vec<(usize, String)>)> {
     let mut sink = Sink::new(script.clone());
+    // no correct writer needs more calls than this: every byte once, every call interrupted once,
+    // plus the calls that a failure may cost
+    sink.call_budget = 4 * canonical.len() + 4096;
     let r = guard(|| f(&mut sink));
     let class = match (&script.accept, script.fail_at, script.zero_at, script.interrupt_every) {
         (_, Some(_), _, _) if script.transient => "transient-failure",
@@ -166,6 +178,7 @@ fn judge_write(what: &str, canonical: &[u8], script: &SinkScript, f: &dyn Fn(&mu
         _ => "partial-writes",
     };
     match r {
+        Err(p) if p.message.contains(SINK_BUDGET_MSG) => Some((format!("{what}:does-not-terminate:{class}"), format!("{what} keeps calling the sink under script {script:?}: more than {} calls for {} canonical bytes", 4 * canonical.len() + 4096, canonical.len()), sink.log)),
         Err(p) => Some((format!("{what}:panic:{class}:{}", p.site()), format!("{what} panics under sink script {script:?}: {}", p.message), sink.log)),
         Ok(Ok(())) => {
             if sink.out != canonical {
